@@ -170,7 +170,8 @@ class Ctx:
                 import z3
 
                 neg = z3.Not(cond.e) if isinstance(cond, symx.SymBool) else None
-                model = self.ex.nice_model(self._z3_inputs(), extra=neg, model=model) or model
+                if not os.environ.get("VERIF_NO_NICE"):
+                    model = self.ex.nice_model(self._z3_inputs(), extra=neg, model=model) or model
                 ob["model"] = self._model_values(model)
             if detail:
                 ob["detail"] = detail
